@@ -18,6 +18,7 @@ def modelLine (line : String) : String :=
        | none => o.show)
     | "F" => let c := parseFCase id rest; showF c (runF c)
     | "X" => runX (toks rest)
+    | "L" => "cli"
     | _ => "badcase"
   s!"{id} {body}"
 
